@@ -57,8 +57,12 @@ CFG = {'streams': [{'name': 'C06',
                  'they are, a violation would show as verdict 7/8',
                  'static shape Zero (a capture name the stanza pattern does not contain) is treated as neither optional nor list, as the '
                  'implementation does; it cannot arise for a capture that resolves in the stanza query under C03 A2'],
- 'partial': ['local_is_pure (semantic form: the value of a checker-local expression does not depend on the scoped store or on mutable locals) is not '
-             'proved: it needs the interpreter models; proved instead: local_is_pure_partial (syntactic core), env_inv_reachable, set_needs_mutable. '
-             'Transitivity through let-bindings is carried by the is_local bit of the binding, not re-derived from the initialiser.',
+ 'partial': ['WHAT THE RULES BUY AT RUN TIME is proved against the interpreter models: locality (checked_eager_positions_local, '
+             'checker_local_is_eager_ok, local_never_forces, checked_expr_never_forces, local_invariant_preserved, '
+             'checked_exec_phase_forces_nothing, local_independent_of_nonlocal_state: eager positions of an accepted file never touch the scoped '
+             'store; Proofs/Local*.v) and the variable rules (checked_no_variable_errors_strict / _lazy: an accepted file never fails with '
+             'CannotAssignImmutableVariable or UndefinedCapture, and with UndefinedVariable / DuplicateVariable only through scoped variables; '
+             'Proofs/VarScope*.v), both for files whose shorthand bodies are disciplined (K4) and, for the variable rules, supplied globals that '
+             'are declared. The older local_is_pure_partial (syntactic core) is kept.',
              'shorthand bodies are outside the theorems because the implementation does not check them (known finding K4); Example '
              'ex_shorthand_not_checked is the witness']}
